@@ -27,7 +27,21 @@ SampleIntents == RandomSubset(4, IntentSet) \cup RandomSubset(1, Verbatim) \cup 
                  \cup RandomSubset(1, Shrunk) \cup RandomSubset(2, Dels)
 \* VERIF_GEN_BIAS = "verbatim": most requests re-submit stored intents exactly as they are (C09), alone or in pairs
 Bias == IOEnv.VERIF_GEN_BIAS
-ReqSample == IF Bias = "verbatim" /\ Verbatim # {}
+\* VERIF_GEN_BIAS = "takeover": most requests remove two intents at once that both define a leaf a third intent
+\* defines too (who takes over when the two best leave together?)
+Shared3 == {x.l : x \in {y \in intended : Cardinality({z.o : z \in {w \in intended : w.l = y.l}}) >= 3}}
+TakeoverReqs == {{d1, d2} : d1 \in Dels, d2 \in Dels} \cap
+                {R \in SUBSET Dels : Cardinality(R) = 2 /\ \E l \in Shared3 : \A d \in R : \E x \in intended : x.o = d.o /\ x.l = l}
+\* (until three intents are stored the requests add the missing owners, without dry runs, cancels and waits)
+Stacking == Bias \in {"takeover", "stack"}   \* "stack": three owners first, then single-intent changes
+NewOwnerSets == {x \in IntentSet : x.kind = "set" /\ x.o \notin StoredOwners}
+ReqSample == IF Bias = "takeover" /\ TakeoverReqs # {}
+             THEN TakeoverReqs \cup {{i} : i \in RandomSubset(1, IntentSet)}
+             ELSE IF Stacking /\ NewOwnerSets # {}
+             THEN {{i} : i \in RandomSubset(3, NewOwnerSets)}
+             ELSE IF Bias = "stack"
+             THEN {{i} : i \in SampleIntents}
+             ELSE IF Bias = "verbatim" /\ Verbatim # {}
              THEN {{i} : i \in Verbatim} \cup {{i, j} : i \in Verbatim, j \in Verbatim} \cup {{i} : i \in RandomSubset(2, IntentSet)}
              ELSE LET S == SampleIntents IN {{i} : i \in S} \cup {{i, j} : i \in S, j \in S}
 
@@ -35,15 +49,16 @@ GInit == Init /\ hist = [init |-> FunToPairs(device), steps |-> <<>>]
 
 GNext ==
     \/ /\ Room
-       /\ \/ \E id \in TxnId, R \in ReqSample, d \in BOOLEAN, f \in FailKinds, t \in TmoKinds :
+       /\ \/ \E id \in TxnId, R \in ReqSample, d \in (IF Stacking THEN {FALSE} ELSE BOOLEAN), f \in FailKinds, t \in TmoKinds :
                TxBegin(id, R, d, f, t) /\ In([op |-> "txset", id |-> id, dry |-> d, intents |-> R, devfail |-> (f = "device"), tmoc |-> t,
                                                  rescfg |-> FunToPairs(ResultCfg(NewStore(intended, R), device, R))])
           \/ \E id \in TxnId, R \in {{i} : i \in RandomSubset(1, IntentSet)} :
+               /\ ~Stacking
                /\ GoodRequest(R) /\ TxRefused(id)
                /\ In([op |-> "txset", id |-> id, dry |-> FALSE, intents |-> R, devfail |-> FALSE, tmoc |-> "long"])
           \/ \E id \in TxnId : Confirm(id) /\ In([op |-> "confirm", id |-> id])
-          \/ \E id \in TxnId : Cancel(id) /\ In([op |-> "cancel", id |-> id])
-          \/ Wait /\ In([op |-> "wait"])
+          \/ \E id \in TxnId : ~Stacking /\ Cancel(id) /\ In([op |-> "cancel", id |-> id])
+          \/ ~Stacking /\ Wait /\ In([op |-> "wait"])
     \/ /\ (TxReject \/ TxDryRun \/ TxApply \/ TxApplyFail \/ (\E o \in Owner : TxPersistIntent(o))
            \/ TxPersistRunning \/ TxArm \/ EnvSync)
        /\ UNCHANGED hist
